@@ -103,6 +103,15 @@ let handle (x : sx) : string =
       let pk = pk_of_sx pk and f = formula_of_sx f and n = nat_of_sx n and w = trace_of_sx w in
       Printf.sprintf "OFF %s | RHO %s | EXACT %s"
         (show_vals (run_off pk f w n)) (show_vals (run_rho pk f w n)) (show_bool (run_exact pk f w n))
+  | L [A "on"; pk; L fs; n; w] ->
+      let pk = pk_of_sx pk and fs = List.map formula_of_sx fs and n = nat_of_sx n and w = trace_of_sx w in
+      let main = List.nth fs (List.length fs - 1) in
+      Printf.sprintf "ON %s | RHO %s | EXACT %s | SUPP %s"
+        (show_vals (run_on pk fs w n)) (show_vals (run_rho pk main w n))
+        (show_bool (List.for_all (fun f -> run_exact pk f w n) fs)) (show_bool (run_on_supported fs))
+  | L [A "onreset"; pk; L fs; h; n; w] ->
+      let pk = pk_of_sx pk and fs = List.map formula_of_sx fs and h = nat_of_sx h and n = nat_of_sx n and w = trace_of_sx w in
+      Printf.sprintf "ON %s" (show_vals (run_on_reset pk fs w h n))
   | _ -> failwith "unknown command"
 
 let () =
